@@ -91,6 +91,12 @@ CLAIMED = {
         text="On every valid corpus state (constructed, valid flip-closure states, incremental build, after removal, after repair, after one more insertion; D=2..5, both kernels) every query API - edges, number_of_edges, incident_edges, adjacent_cells, cell_neighbors, facets, boundary_facets, number_of_boundary_facets, cell_vertices, vertex_coords, the AdjacencyIndex and every *_with_index twin, count_simplices, count_boundary_simplices, euler_characteristic, classify_triangulation - is evaluated for every live vertex / cell key and one foreign key each and compared with values obtained by enumerating faces of the stored cells directly; every triangulation with cells must be classified as a ball (single simplex) with chi = 1 and a closed boundary sphere.",
         note="Brute-force enumeration reads cells and vertices through the public iterators only.",
         design_ref="DESIGN.md section 5 (C15)"),
+    "C17": dict(
+        category="exploration",
+        technique="exhaustive enumeration of every Hilbert grid cell at small bit depths and of every vertex list over a tie-rich alphabet through every ordering / dedup implementation, with exact oracles",
+        text="Hilbert: every cell of the 2^(bD) grid for D=1..5 and every bit depth b with bD <= 20 (24 in thorough) through hilbert_indices_prequantized: the indices are a bijection onto [0, 2^(bD)) and consecutive indices are grid cells that differ by 1 in exactly one coordinate; hilbert_index at cell centres equals quantize-then-index. Orderings / dedup: every vertex list up to the stated length over the full product of a per-axis alphabet with signed zeros, a near-duplicate pair (1, 1+1e-11), 4e9 (coordinate/tolerance ratio beyond i64) and 1e300, with deterministic UUIDs and data, through the four ordering strategies (output must be a permutation of the input as a multiset of (UUID, coordinate bits, data)), the two public dedup helpers and the five private batch dedup implementations via guarded wrappers (exact: exactly one representative per distinct coordinate tuple; epsilon in {1e-10, 0.5}: survivors are input vertices, none twice, pairwise not within the tolerance, every dropped vertex within the tolerance of a survivor - exact distance comparisons).",
+        note="Epsilon claims exclude a 1% shell around the tolerance and lists containing 1e300 (distance overflow). Needs the verif-hooks wrappers for the private implementations.",
+        design_ref="DESIGN.md section 4 (C17)"),
     "C12": dict(
         category="exploration",
         technique="exhaustive enumeration of grid tuples x vertex orders x scale variants against an exact (bigint) sign oracle",
